@@ -21,6 +21,12 @@ TBInit == l = 1 /\ bad = "" /\ TLCSet(42, <<>>)
 
 Skipping == bad # "" /\ Ev.k # "reset"
 
+\* verdicts carried by the event itself (the harness compared a value with what the real code returned)
+EvBad == IF Ev.k \in {"ret", "final"} /\ "bij" \in DOMAIN Ev.x /\ ~Ev.x.bij THEN "InvBijection" ELSE ""
+Worst(a, b) == IF a # "" THEN a ELSE b
+IsNopCall == Ev.k = "call" /\ Ev.x.op = "nop"
+IsNopRet  == Ev.k = "ret" /\ Ev.fn = "nop"
+
 NoteBad(b) == b # "" => TLCSet(42, Append(TLCGet(42), <<b, l>>))
 
 \* the driver compares the matched length with the number of lines and reads the violations
